@@ -151,6 +151,9 @@ def cases(chk):
     for _ in range(chk.scale(4000, 80000)):
         name = r.choice(names + ["message", "message", "contextinfo"])
         yield "object", {"schema": name, "spec": gen_spec(r, name, 0, req)}
+    # two objects built from defaults, one of them edited in place: the other must not change (shared mutable defaults, class-level state)
+    for name in sorted(ps._classes()):
+        yield "aliasing", {"schema": name}
     for _ in range(chk.scale(400, 8000)):
         kind = r.choice(["conversation", "image", "contact", "location", "extended_text", "document", "audio", "video", "sticker"])
         yield "entity", {"kind": kind, "seed": r.randrange(1 << 30), "group": r.random() < 0.3}
@@ -159,6 +162,8 @@ def cases(chk):
 def nontrivial(stream, case):
     if stream == "entity":
         return (case["kind"], case["seed"] % 64, case["group"])
+    if stream == "aliasing":
+        return ("aliasing", case["schema"])
 
     def shape(spec):
         return tuple((p, s[0] if s[0] != "sub" else shape(s[1])) for p, s in sorted(spec.items()))
@@ -201,9 +206,87 @@ def _diff(name, a, b, path=""):
     return None
 
 
+def _snapshot(o, depth=0):
+    if depth > 6:
+        return "…"
+    if isinstance(o, (list, tuple)):
+        return [_snapshot(x, depth + 1) for x in o]
+    if isinstance(o, dict):
+        return sorted((repr(k), _snapshot(v, depth + 1)) for k, v in o.items())
+    if hasattr(o, "__dict__") and type(o).__module__.startswith("yowsup"):
+        return (type(o).__name__, sorted((k, _snapshot(v, depth + 1)) for k, v in vars(o).items()))
+    return repr(o)
+
+
+def _mutables(o, path="", depth=0, seen=None):
+    seen = seen if seen is not None else set()
+    if id(o) in seen or depth > 6:
+        return
+    seen.add(id(o))
+    if isinstance(o, (list, dict, set, bytearray)):
+        yield path, o
+    if isinstance(o, (list, tuple)):
+        for i, x in enumerate(o):
+            for y in _mutables(x, "%s[%d]" % (path, i), depth + 1, seen):
+                yield y
+    elif hasattr(o, "__dict__") and type(o).__module__.startswith("yowsup"):
+        for k, v in vars(o).items():
+            for y in _mutables(v, "%s.%s" % (path, k.lstrip("_")), depth + 1, seen):
+                yield y
+
+
+def run_aliasing(chk, case):
+    """two attribute objects of the class built with the required arguments only (every optional parameter left to its default); every
+    mutable container reachable from the first is edited in place; the second must still serialise to what it did before"""
+    import inspect
+    fails = []
+    name = case["schema"]
+    cls = ps._classes()[name]
+    types = dict(ps.DL_FIELDS) if name == "dl" else dict((f, t) for f, t in ps.SCHEMAS[ps.SCHEMA_IDS[name]][3])
+
+    def make():
+        args = []
+        for i, (pn, prm) in enumerate((k, v) for k, v in inspect.signature(cls.__init__).parameters.items() if k != "self"):
+            if prm.default is not inspect.Parameter.empty:
+                break
+            t = types.get(pn, "str")
+            if t.startswith("embed:"):
+                args.append(ps._classes()["dl"](*[ps.truthy(dt, j) if not dt.startswith("sub:") else None for j, (_df, dt) in enumerate(ps.DL_FIELDS)][:5] + [None]))
+            elif t.startswith("sub:"):
+                args.append(ps.minimal(t[4:], 1, i) if t[4:] not in ("message", "contextinfo") else None)
+            else:
+                args.append(ps.truthy(t, i))
+        return cls(*args)
+    try:
+        a, b = make(), make()
+    except Exception as e:
+        chk.hit("aliasing:not-constructible")
+        return fails
+    chk.hit("aliasing:" + name)
+    before = _snapshot(b)
+    edited = []
+    for path, m in _mutables(a):
+        if isinstance(m, list):
+            m.append("4915200000099@s.whatsapp.net")
+        elif isinstance(m, dict):
+            m["edited"] = 1
+        elif isinstance(m, set):
+            m.add("edited")
+        else:
+            m.extend(b"edited")
+        edited.append(path)
+    after = _snapshot(b)
+    if before != after:
+        fails.append(oracle("C10:objects-share-state:%s" % name, "two %s objects built with the required arguments only; editing %s of the first in place changed the second "
+                            "(composed content that the sender never set)" % (cls.__name__, ", ".join(edited)[:120])))
+    return fails
+
+
 def run_case(chk, stream, case):
     if stream == "entity":
         return run_entity(chk, case)
+    if stream == "aliasing":
+        return run_aliasing(chk, case)
     fails = []
     name = case["schema"]
     sid = ps.SCHEMA_IDS[name]
